@@ -687,23 +687,11 @@ func ruleOneCache(c *Ctx) {
 		}
 		n++
 		call := s.Ins.(ssa.CallInstruction).Common()
-		// options slice: find WithReplayCache calls feeding it
+		// the WithReplayCache call among the options handed to this construction (through literals, append, list helpers)
 		var wrc *ssa.Call
-		for _, b := range s.Fn.Blocks {
-			for _, ins := range b.Instrs {
-				if cc, ok := ins.(*ssa.Call); ok && eng.CalleeName(&cc.Call) == "service.WithReplayCache" {
-					// does its result flow into this call's varargs array?
-					for _, r := range *cc.Referrers() {
-						if st, ok := r.(*ssa.Store); ok {
-							if ia, ok := st.Addr.(*ssa.IndexAddr); ok {
-								if sl, ok := call.Args[0].(*ssa.Slice); ok && sl.X == ia.X {
-									wrc = cc
-								}
-							}
-						}
-					}
-				}
-			}
+		if opts, _ := siteOptions(c, call); len(opts["service.WithReplayCache"]) > 0 {
+			l := opts["service.WithReplayCache"]
+			wrc = l[len(l)-1]
 		}
 		if wrc == nil {
 			c.CheckAt("ONECACHE", fmt.Sprintf("service#%d:gets-replay-history", n), s.Ins, false, "a service is created without WithReplayCache: handshakes on its listeners are not checked against the history")
@@ -711,9 +699,59 @@ func ruleOneCache(c *Ctx) {
 		}
 		arg := wrc.Call.Args[0]
 		okF := false
-		if fa, ok := arg.(*ssa.FieldAddr); ok {
-			if t, f, _, ok := eng.FieldOf(fa); ok && t == mainM(c).serverT && f == field {
-				okF = true
+		isHist := func(v ssa.Value) bool {
+			fa, ok := v.(*ssa.FieldAddr)
+			if !ok {
+				return false
+			}
+			t, f, _, ok := eng.FieldOf(fa)
+			return ok && t == mainM(c).serverT && f == field
+		}
+		if isHist(arg) {
+			okF = true
+		} else {
+			// carried in a settings struct filled from the server object: follow the pointer back through parameters and
+			// through every store into the struct field it is read from
+			okF = true
+			seen := map[ssa.Value]bool{}
+			work := []ssa.Value{arg}
+			n := 0
+			for len(work) > 0 && n < 64 {
+				v := work[len(work)-1]
+				work = work[:len(work)-1]
+				if seen[v] {
+					continue
+				}
+				seen[v] = true
+				n++
+				oo := eng.Deep
+				oo.Stop = func(x ssa.Value) bool {
+					if isHist(x) {
+						return true
+					}
+					_, _, _, isFL := eng.FieldLoad(x)
+					return isFL
+				}
+				for _, o := range p.Origins(v, oo) {
+					if isHist(o) {
+						continue
+					}
+					if t, f, _, isFL := eng.FieldLoad(o); isFL && strings.HasPrefix(t, mainPkg+".") {
+						sts := p.FieldStores(t, f)
+						if len(sts) == 0 {
+							okF = false
+						}
+						for _, st := range sts {
+							if st.Val == nil {
+								okF = false
+								continue
+							}
+							work = append(work, st.Val)
+						}
+						continue
+					}
+					okF = false
+				}
 			}
 		}
 		c.CheckAt("ONECACHE", fmt.Sprintf("service#%d:shares-the-server-history", n), wrc, okF, "the service receives a pointer to something other than the server's own replay-history field (e.g. a per-generation copy): handshakes recorded by one generation are forgotten by the next")
